@@ -23,14 +23,35 @@ from props.common import *
 import cfggen
 
 PID = "C07"
+LOCK = threading.Lock()
 KS_BASE = [1, 2, 7]
 K_LONG, K_HUGE = 1000, 12000
 
-# signatures of the recorded findings (known_findings.json); each is attached to a rejected pair only after a
-# counterfactual run showed that the pair agrees once the named condition is out of the way
-SIG_PAUSE = "C07 [rapid-event pause still pending at the may-block decision"
-SIG_OS0 = "C07 [one-shot end pending (oneshot.timeout = 0, keys non-empty) counted as idle"
+# The recorded findings of C07 (known_findings.json).  A rejected pair is attributed to one of them only when the
+# decision point shows the finding's precondition (public state read by the harness at the cut: `pre`) AND, where a
+# counterfactual exists, the same pair taken `delay` ticks later - when the pending item is out of the way - agrees.
 SIG_ZIPPY = "C07 [zippychord forced state reset after 10000 idle ticks"
+FINDINGS = [
+    # key, signature, precondition on pre, delay of the counterfactual (None: precondition only), wording
+    ("pause", "C07 [rapid-event pause still pending at the may-block decision",
+     lambda p: p["osp"] > 0, lambda p: p["osp"],
+     "oneshot.pause_input_processing_ticks > 0"),
+    ("os0", "C07 [one-shot end pending (oneshot.timeout = 0, keys non-empty) counted as idle",
+     lambda p: p["ost"] == 0 and p["nosk"] > 0, lambda p: 1,
+     "oneshot.timeout = 0 with one-shot keys still held"),
+    ("kdiff", "C07 [key-state change still to be written at the may-block decision",
+     lambda p: p["kdiff"], lambda p: 1,
+     "layout.keycodes() differs from prev_keys"),
+    ("cv2", "C07 [stale chords-v2 fast-path counter at the end of the chords-v2-min-idle window",
+     lambda p: p["cv2edge"], lambda p: 1,
+     "first tick at which chords v2 accepts chords again"),
+    ("drec", "C07 [may-block while a dynamic macro is being recorded",
+     lambda p: p["drec"], None,
+     "dynamic_macro_record_state is Some"),
+]
+FKEY = {f[0]: f for f in FINDINGS}
+SIG_OF = {f[0]: f[1] for f in FINDINGS}
+SIG_OF["long"] = SIG_ZIPPY
 
 
 # ---------------------------------------------------------------- instance family (L1)
@@ -143,7 +164,7 @@ def c07_history(rng, codes, n, numbers, repeat_p=0.05):
     gaps = [0, 0, 1, 1, 2, 3, 5, 6, 8, 20]
     for x in numbers:
         gaps += [max(x - 1, 0), x, x + 1, x + 7, 2 * x + 3]
-    return rand_history(rng, codes, n, gaps, tail=max(numbers + [10]) * 3 + 20, repeat_p=repeat_p)
+    return rand_history(rng, codes, n, gaps, tail=min(max(numbers + [10]) * 3 + 20, 700), repeat_p=repeat_p)
 
 
 # ---------------------------------------------------------------- running / judging pairs
@@ -210,10 +231,12 @@ def validate_pairs(files, wd, name, timeout=3000):
                                  "pre": r["pre"], "guards": r.get("guards", {})}
         g.write('{"e":"end"}\n')
     mod = "C07PairTrace"
-    with open(os.path.join(wd, mod + ".cfg"), "w") as f:
+    twd = os.path.join(wd, "tlc_" + name)       # concurrent validations: one TLC directory each
+    os.makedirs(twd, exist_ok=True)
+    with open(os.path.join(twd, mod + ".cfg"), "w") as f:
         f.write(PAIR_CFG)
-    outp = os.path.join(wd, mod + "." + name + ".out")
-    r = run_tlc(wd, mod, workers=1, timeout=timeout, heap="6g", deque=True,
+    outp = os.path.join(twd, mod + "." + name + ".out")
+    r = run_tlc(twd, mod, workers=1, timeout=timeout, heap="6g", deque=True,
                 env_extra={"TRACE": os.path.abspath(trace)}, stdout_path=outp)
     txt = open(outp, errors="replace").read()
     if r["rc"] != 0 or "Model checking completed. No error" not in txt:
@@ -272,6 +295,19 @@ def replay_case(r):
 
 def replay(r, path, wd):
     """./check replay <file>: re-run one pair on the current tree and let TLC judge it again."""
+    if r["mode"] == "loop":
+        build_harness()
+        jf, of = os.path.join(wd, "loop.job.json"), os.path.join(wd, "loop.pairs.ndjson")
+        json.dump({"jobs": [{"cfg": r["cfg"], "tag": "loop0", "runs": [{"events": r["events"], "gaps_us": r["gaps_us"]}]}]}, open(jf, "w"))
+        sh([HARNESS, "loop-run", jf, of])
+        stats, errs, notes, index = validate_pairs([of], wd, "replay")
+        for e in errs:
+            print("REJECTED: %s" % e["err"])
+        if errs:
+            print("VIOLATION property=%s replay=%s" % (r["property"], path))
+            return 1
+        print("accepted by P_C07!LoopErr (real-time run: the schedule is not reproduced exactly)")
+        return 0
     job = {"cfg": r["cfg"], "files": r.get("files", {}), "cases": [replay_case(r)]}
     files = run_paired([job], wd, "replay", shards=1)
     for line in open(files[0]):
@@ -300,7 +336,7 @@ class Pairs:
     def __init__(self, res, wd):
         self.res, self.wd = res, wd
         self.jobs = []
-        self.stats = {"pairs": 0, "rejected": 0, "known_pause": 0, "known_os0": 0, "known_zippy": 0, "raw_only_diffs": 0,
+        self.stats = {"pairs": 0, "rejected": 0,  "raw_only_diffs": 0,
                       "points": 0, "cases": 0, "ticks_scanned": 0, "cb_ticks": 0}
 
     def add(self, cfg, files, cases, label, meta=None):
@@ -312,27 +348,40 @@ class Pairs:
         j = self.jobs[int(ji)]
         return j, j["cases"][int(ci)]
 
-    def run(self, name):
-        if not self.jobs:
+    def record(self, name):
+        """Runs the paired jobs on the real code (sharded over processes)."""
+        self.name, self.files = name, []
+        if self.jobs:
+            t0 = time.time()
+            self.files = run_paired(self.jobs, self.wd, name)
+            self.t_rec = time.time() - t0
+
+    def judge(self):
+        """TLC judges the recorded pairs; rejected pairs are classified."""
+        if not self.files:
             return
-        t0 = time.time()
-        files = run_paired(self.jobs, self.wd, name)
+        name = self.name
         t1 = time.time()
-        stats, errs, notes, index = validate_pairs(files, self.wd, name)
+        stats, errs, notes, index = validate_pairs(self.files, self.wd, name)
         log("[c07] %s: %d pairs from %d cases (%d may-block points, %d used) recorded in %.1fs, judged by TLC in %.1fs: "
             "%d rejected" % (name, stats["pairs"], stats["cases"], stats["points"], stats["points_used"],
-                             t1 - t0, time.time() - t1, len(errs)))
-        self.stats["pairs"] += stats["pairs"]
-        self.stats["points"] += stats["points_used"]
-        self.stats["cases"] += stats["cases"]
-        self.stats["ticks_scanned"] += stats["ticks"]
-        self.stats["cb_ticks"] += stats["cbticks"]
-        self.stats["raw_only_diffs"] += len(notes)
-        self.res.traces_validated += stats["pairs"]
-        self.res.trace_lines += stats["pairs"]
+                             self.t_rec, time.time() - t1, len(errs)))
+        with LOCK:
+            self.stats["pairs"] += stats["pairs"]
+            self.stats["points"] += stats["points_used"]
+            self.stats["cases"] += stats["cases"]
+            self.stats["ticks_scanned"] += stats["ticks"]
+            self.stats["cb_ticks"] += stats["cbticks"]
+            self.stats["raw_only_diffs"] += len(notes)
+            self.res.traces_validated += stats["pairs"]
+            self.res.trace_lines += stats["pairs"]
         if errs:
-            self.classify(errs, index, name)
-        return stats
+            with LOCK:
+                self.classify(errs, index, name)
+
+    def run(self, name):
+        self.record(name)
+        self.judge()
 
     def classify(self, errs, index, name):
         self.stats["rejected"] += len(errs)
@@ -352,30 +401,32 @@ class Pairs:
             text = e["err"]
             pre = pl["pre"]
             if e["mode"] == "gap":
+                cands = [f for f in FINDINGS if f[2](pre)]
                 if "defzippy" in job["cfg"] and e["K"] > 10000 and e["err"].startswith("C07 pair-diverges") and \
                         any(k <= K_LONG for k in sib_ok.get((e["job"], e["cut"], json.dumps(e["cont"])), ())):
                     text = SIG_ZIPPY + ": the pair with a gap of %d ticks diverges, the same pair with a gap <= %d agrees; " \
                         "configuration has defzippy] " % (e["K"], K_LONG) + e["err"]
-                elif pre["osp"] > 0 or (pre["ost"] == 0 and pre["nosk"] > 0):
-                    retest.append((e, job, case, robj))
+                elif any(f[3] for f in cands):
+                    retest.append((e, job, case, robj, cands))
                     continue
+                elif cands:
+                    text = " ".join("%s: %s]" % (f[1], f[4]) for f in cands) + " " + e["err"]
             elif e["mode"] == "block":
                 g = pl["guards"]
-                fired = [k for k in ("pause", "os0", "long") if g.get(k, 0)]
+                fired = [k for k in g if g[k]]
                 if fired and e["job"] not in okg:
                     continue       # its guarded sibling is rejected as well: reported once, through that pair
                 if fired and not ("long" in fired and "defzippy" not in job["cfg"]):
                     # the blocking stepper that keeps ticking in the states of the recorded findings agrees
-                    sigs = {"pause": SIG_PAUSE, "os0": SIG_OS0, "long": SIG_ZIPPY}
-                    text = " ".join(sigs[k] + "]" for k in fired) + " blocking stepper vs ticking stepper on a whole " \
+                    text = " ".join(SIG_OF[k] + "]" for k in fired) + " blocking stepper vs ticking stepper on a whole " \
                         "history; the stepper that keeps ticking in those states agrees (decisions changed: %s): " % json.dumps(g) \
                         + e["err"]
             self.report(e, job, robj, text)
         if retest:
-            # counterfactual: the same pair cut d ticks later, when the pause ran out / the one-shot end was emitted
+            # counterfactual: the same pair cut d ticks later, when the pending item is out of the way
             rj = []
-            for e, job, case, robj in retest:
-                d = max(robj["pre"]["osp"], 1)
+            for e, job, case, robj, cands in retest:
+                d = max(f[3](robj["pre"]) for f in cands if f[3])
                 rj.append({"cfg": job["cfg"], "files": job.get("files", {}),
                            "cases": [{"hist": robj["prefix"] + [["t", d]], "points": "end", "ks": [robj["K"]],
                                       "conts": [robj["cont"]], "tail": robj["tail"]}]})
@@ -383,30 +434,103 @@ class Pairs:
             stats, errs2, _, index2 = validate_pairs(files, self.wd, name + ".retest")
             still = {e2["job"] for e2 in errs2}
             have = {p["job"] for p in index2.values()}
-            for i, (e, job, case, robj) in enumerate(retest):
+            for i, (e, job, case, robj, cands) in enumerate(retest):
                 tag = "%d/0" % i
-                pre = robj["pre"]
                 text = e["err"]
+                timed = [f for f in cands if f[3]]
+                untimed = [f for f in cands if not f[3]]
                 if tag in have and tag not in still:
-                    if pre["osp"] > 0:
-                        text = SIG_PAUSE + ": oneshot.pause_input_processing_ticks = %d > 0; the same pair taken %d ticks " \
-                            "later, after the pause ran out, agrees] " % (pre["osp"], pre["osp"]) + e["err"]
-                    else:
-                        text = SIG_OS0 + "; the same pair taken one tick later, after the release was emitted, agrees] " + e["err"]
+                    text = " ".join("%s: %s; the same pair taken %d tick(s) later agrees]" % (f[1], f[4], f[3](robj["pre"]))
+                                    for f in timed) + " " + e["err"]
+                elif untimed:
+                    text = " ".join("%s: %s]" % (f[1], f[4]) for f in untimed) + " " + e["err"]
                 self.report(e, job, robj, text)
 
     def report(self, e, job, robj, text):
         n_before = len(self.res.known)
+        full = text + " cfg=" + job["cfg"]
+        if len(self.res.violations) >= 25 and \
+                not any(flow.sig_matches(f, PID, full) for f in known_findings().get("findings", [])):
+            self.stats["violations_beyond_the_first_25"] = self.stats.get("violations_beyond_the_first_25", 0) + 1
+            return
         is_v = flow.classify(self.res, PID, e["err"], text + " cfg=" + job["cfg"], robj,
                              "%s_%d" % (re.sub(r"\W+", "_", job["label"])[:30], len(self.res.violations)))
         if not is_v:
-            for sg, k in ((SIG_PAUSE, "known_pause"), (SIG_OS0, "known_os0"), (SIG_ZIPPY, "known_zippy")):
+            for k, sg in SIG_OF.items():
                 if text.startswith(sg):
-                    self.stats[k] += 1
+                    self.stats["known_" + k] = self.stats.get("known_" + k, 0) + 1
                     break
             if len(self.res.known) > n_before or len(self.res.samples) < 6:
                 self.res.samples.append({"known_finding_pair": text[:400], "cfg": job["cfg"], "prefix": robj["prefix"][-12:],
                                          "K": robj["K"], "cont": robj["cont"]})
+
+
+# ---------------------------------------------------------------- part 3: the processing thread
+LOOP_CFGS = [
+    "(defsrc a b c d)\n(deflayer l0 x (layer-while-held l1) S-c (multi lctl d))\n(deflayer l1 1 _ 2 (layer-switch l0))\n",
+    "(defcfg process-unmapped-keys yes)\n(defsrc a b)\n(deflayer l0 b a)\n",
+    "(defsrc a b c d)\n(deflayer l0 (layer-switch l1) b C-S-c XX)\n(deflayer l1 (layer-switch l0) (multi x y) _ d)\n",
+]
+LOOP_CFG_TLC = """CONSTANT MaxTime = %d
+CONSTANT MaxEvents = %d
+CONSTANT W = 2
+CONSTANT IdleD = 3
+CONSTANT Bug = "%s"
+INIT Init
+NEXT Next
+CHECK_DEADLOCK FALSE
+%s
+"""
+LOOP_INVS = ["BlockedOnlyWhenIdle", "RecvThenTick", "NoEventLost", "OnIdleNotPostponed"]
+
+
+def loop_model(wd, quick):
+    """TLC on spec/Loop.tla: the invariants must hold on the design, each seeded design error must be rejected, and the
+    tick-budget probe is reported (an observation about handle_time_ticks, not a verdict of C07)."""
+    mt, me = (28, 2) if quick else (40, 3)
+    out = {}
+    runs = [("design", "none", LOOP_INVS, mt, me), ("mutant_no_rewind", "no_rewind", LOOP_INVS, 28, 2),
+            ("mutant_block_when_counting", "block_when_counting", LOOP_INVS, 28, 2),
+            ("probe_tick_budget", "none", ["TickBudget"], 28, 2)]
+    for name, bug, invs, t, e in runs:
+        d = os.path.join(wd, "loop_" + name)
+        os.makedirs(d, exist_ok=True)
+        with open(os.path.join(d, "Loop.cfg"), "w") as f:
+            f.write(LOOP_CFG_TLC % (t, e, bug, "\n".join("INVARIANT " + i for i in invs)))
+        r = run_tlc(d, "Loop", workers=4, timeout=1200, heap="4g")
+        if r["rc"] == 124 or (r["error"] and not r["violated"]):
+            raise ToolError("TLC on Loop.tla (%s): %s" % (name, r["error"] or "timeout"))
+        out[name] = {"states": r["distinct"], "violated": r["violated"], "wall_s": round(r["wall_s"], 1)}
+    if out["design"]["violated"]:
+        raise ToolError("spec/Loop.tla: invariant %s is violated on the design - the loop model is wrong or the loop is; "
+                        "see %s" % (out["design"]["violated"], os.path.join(wd, "loop_design", "Loop.out")))
+    for m in ("mutant_no_rewind", "mutant_block_when_counting"):
+        if not out[m]["violated"]:
+            raise ToolError("spec/Loop.tla: seeded design error %s is not rejected (vacuous invariants)" % m)
+    return out
+
+
+def loop_runs(rng, n):
+    jobs = []
+    for ci, cfg in enumerate(LOOP_CFGS):
+        m = re.search(r"\(defsrc ([^)]*)\)", cfg)
+        codes = [cfgdesc.code(k) for k in m.group(1).split()]
+        runs = []
+        for _ in range(n):
+            evs, down = [], set()
+            for _ in range(rng.randint(4, 18)):
+                k = rng.choice(codes)
+                if k in down:
+                    evs.append(["u", k])
+                    down.discard(k)
+                else:
+                    evs.append(["d", k])
+                    down.add(k)
+            for k in sorted(down):
+                evs.append(["u", k])
+            runs.append({"events": evs, "gaps_us": [rng.choice([0, 0, 100, 500, 1000, 2500, 5000, 30000]) for _ in evs]})
+        jobs.append({"cfg": cfg, "tag": "loop%d" % ci, "runs": runs})
+    return jobs
 
 
 # ---------------------------------------------------------------- the check
@@ -439,6 +563,18 @@ def run(tier, seed):
     only = os.environ.get("C07_ONLY", "")
     pairs = Pairs(res, wd)
     fam = [f for f in family(tier) if not only or any(f["name"].startswith(o) for o in only.split(","))]
+
+    # part 3's model (spec/Loop.tla) is checked by TLC in the background
+    loopres = {}
+
+    def loop_bg():
+        try:
+            loopres["out"] = loop_model(wd, quick)
+        except Exception as ex:
+            loopres["err"] = ex
+    lt = threading.Thread(target=loop_bg)
+    if not only or "loop" in only:
+        lt.start()
 
     # ---- part 1: TLC on L1 || P_C07 with the stutter probes, edges replayed on the code (D + B)
     results = {}
@@ -518,7 +654,8 @@ def run(tier, seed):
         pairs.add(f["kbd"], {}, cases, "rnd:" + f["name"])
     res.extra["model_nonstutter_states"] = n_ns
     res.extra["model_nonstutter_states_not_explained_by_pause"] = n_nsx
-    pairs.run("l1")
+    pairs.record("l1")
+    judges = [pairs]
 
     # ---- part 2 (ii b): hand-written feature-rich configurations (features L1 does not model)
     if not only or "rich" in only:
@@ -528,10 +665,10 @@ def run(tier, seed):
             codes = [cfgdesc.code(k) for k in keys]
             conts = alphabet(codes[:3])
             cases = []
-            for _ in range(5 if quick else 50):
-                h = c07_history(rng, codes, rng.randint(4, 40 if quick else 150), nums)
+            for _ in range(5 if quick else 30):
+                h = c07_history(rng, codes, rng.randint(4, 40 if quick else 100), nums)
                 big = rng.random() < (0.25 if quick else 0.3)
-                cases.append({"hist": h, "points": "firstlast", "max_points": 5 if quick else 16,
+                cases.append({"hist": h, "points": "firstlast", "max_points": 5 if quick else 10,
                               "ks": sorted(set([1, rng.choice(nums), max(nums) + 1] + ([K_LONG, K_HUGE] if big else [rng.choice([2, 7, K_LONG])]))),
                               "conts": rng.sample(conts, min(len(conts), 3)), "rest": 60,
                               "tail": 3 * max(nums) + 20, "block": True})
@@ -542,11 +679,13 @@ def run(tier, seed):
                [{"hist": [["d", C("d")], ["t", 2], ["d", C("y")], ["t", 5], ["u", C("d")], ["t", 2], ["u", C("y")], ["t", 20]],
                  "points": "end", "ks": [1, K_LONG, 9000, K_HUGE], "conts": [[["d", C("1")], ["t", 3], ["u", C("1")]]],
                  "tail": 40}], "zippy-reproducer")
-        pr.run("rich")
-        pr.jobs = []
+        pr.record("rich")
+        judges.append(pr)
+        pr = Pairs(res, wd)
+        pr.stats = pairs.stats
 
         # ---- part 2 (ii c): configurations drawn from the whole action grammar
-        ncfg = 40 if quick else 500
+        ncfg = 40 if quick else 240
         texts, metas = [], []
         crng = random.Random(seed * 7919 + 13)
         for _ in range(ncfg):
@@ -566,19 +705,59 @@ def run(tier, seed):
             nums = [x for x in m["numbers"] if 0 < x <= 600][:6] or [5]
             conts = alphabet(codes[:2])
             cases = []
-            for _ in range(2 if quick else 6):
-                h = c07_history(crng, codes, crng.randint(4, 40 if quick else 120), nums)
-                cases.append({"hist": h, "points": "firstlast", "max_points": 4 if quick else 10,
+            for _ in range(2 if quick else 4):
+                h = c07_history(crng, codes, crng.randint(4, 40 if quick else 80), nums)
+                cases.append({"hist": h, "points": "firstlast", "max_points": 4 if quick else 8,
                               "ks": sorted(set([1, crng.choice(nums) + 1, crng.choice([2, 7, K_LONG, K_HUGE])])),
                               "conts": crng.sample(conts, min(len(conts), 2)), "rest": 60,
-                              "tail": min(3 * max(nums) + 20, 2000), "block": True})
+                              "tail": min(3 * max(nums) + 20, 600), "block": True})
             pr.add(t, {}, cases, "gen:" + m["hash"])
         res.extra["generated_configs"]["driven"] = used
-        pr.run("gen")
+        pr.record("gen")
+        judges.append(pr)
+    jerrs = []
 
+    def judge(p):
+        try:
+            p.judge()
+        except Exception as ex:
+            jerrs.append(ex)
+    jt = [threading.Thread(target=judge, args=(p,)) for p in judges]
+    for t in jt:
+        t.start()
+    for t in jt:
+        t.join()
+    if jerrs:
+        raise jerrs[0]
+
+    # ---- part 3: the loop thread - TLC on spec/Loop.tla, and the real thread against the stepper (exploration)
+    if not only or "loop" in only:
+        lt.join()
+        if "err" in loopres:
+            raise loopres["err"]
+        res.extra["loop_model"] = loopres["out"]
+        res.states += res.extra["loop_model"]["design"]["states"] or 0
+        ljobs = loop_runs(rng, 3 if quick else 40)
+        jf, of = os.path.join(wd, "loop.job.json"), os.path.join(wd, "loop.pairs.ndjson")
+        json.dump({"jobs": ljobs}, open(jf, "w"))
+        p = sh([HARNESS, "loop-run", jf, of], check=False, timeout=1800)
+        if p.returncode != 0:
+            raise ToolError("kverif loop-run failed: " + (p.stdout or "")[-1500:])
+        lerr = [json.loads(x) for x in open(of) if '"e":"looperror"' in x]
+        if lerr:
+            raise ToolError("kverif loop-run could not run the processing thread: %s" % lerr[0]["msg"])
+        stats, errs, notes, index = validate_pairs([of], wd, "loop")
+        res.traces_validated += stats["pairs"]
+        res.extra["real_thread_runs"] = {"runs": stats["pairs"], "rejected": len(errs)}
+        for e in errs:
+            j = ljobs[int(e["job"][4:])]
+            run_ = j["runs"][e["case"]]
+            flow.classify(res, PID, e["err"], e["err"] + " cfg=" + j["cfg"],
+                          {"kind": "c07pair", "property": PID, "mode": "loop", "cfg": j["cfg"], "events": run_["events"],
+                           "gaps_us": run_["gaps_us"], "err": e["err"], "monitor": "P_C07"}, "loop_%d" % len(res.violations))
     res.extra["pairs"] = pairs.stats
     res.samples.append({"pair_statistics": dict(pairs.stats)})
-    if pairs.stats["pairs"] == 0:
+    if pairs.stats["pairs"] == 0 and not only:
         raise ToolError("no may-block point was reached: the paired runs compared nothing")
     return flow.finish(
         res, "model_checking",
